@@ -20,6 +20,19 @@ for d in sorted(glob.glob(os.path.join(ROOT, "seeded", "*", "meta.json"))):
     fe = 'missed' if fe.startswith('MISSED') else ('weak: ' + fe.split('weakly: ')[1] if 'weakly' in fe else ('caught' if fe.startswith('caught') else '?'))
     rows.append(f"| `seeded/{sid}` (round {m.get('round','?')}) {cell(m['title'][:110])} | {m['property']} | {cell(m['needs_to_manifest'][:200])} | {fe} | {cell(c)} |")
 st = "\n".join(rows)
+# statistics per round
+import collections
+fe_c = collections.defaultdict(collections.Counter); now_c = collections.defaultdict(collections.Counter)
+for d in sorted(glob.glob(os.path.join(ROOT, "seeded", "*", "meta.json"))):
+    m = json.load(open(d)); r = str(m.get("round", "?")); fe = m.get("first_encounter", "?")
+    fe_c[r]["missed" if fe.startswith("MISSED") else ("weak" if "weakly" in fe else ("caught" if fe.startswith("caught") else "?"))] += 1
+    cb = m.get("caught_by") or {}
+    now_c[r]["with failing input" if any(v["exit"] == 1 and v.get("with_failing_input", 0) > 0 for v in cb.values()) else ("without failing input" if any(v["exit"] == 1 for v in cb.values()) else "missed")] += 1
+srows = ["| round | seeds kept | first encounter: caught / caught weakly / missed | now (quick tier of some check): reported with failing input / reported without / missed |", "|---|---|---|---|"]
+for r in sorted(fe_c):
+    n = sum(fe_c[r].values())
+    srows.append(f"| {r} | {n} | {fe_c[r]['caught']} / {fe_c[r]['weak']} / {fe_c[r]['missed']} | {now_c[r]['with failing input']} / {now_c[r]['without failing input']} / {now_c[r]['missed']} |")
+sstats = "\n".join(srows)
 # per-property status
 props = [json.loads(l) for l in open(os.path.join(ROOT, "properties.jsonl"))]
 rows = ["| property | theorems audited | `_partial` theorems (missing hypothesis in Props file) | quick: cases / wall-clock | open findings | seeds caught (quick) |", "|---|---|---|---|---|---|"]
@@ -41,7 +54,7 @@ for pr in props:
 stt = "\n".join(rows)
 p = os.path.join(ROOT, "DESIGN.md")
 s = open(p).read()
-for tag, body in (("FINDINGS-TABLE", ft), ("SEEDED-TABLE", st), ("STATUS-TABLE", stt)):
+for tag, body in (("FINDINGS-TABLE", ft), ("SEEDED-TABLE", st), ("STATUS-TABLE", stt), ("SEED-STATS", sstats)):
     s = re.sub(rf"<!-- {tag} -->.*?<!-- /{tag} -->", f"<!-- {tag} -->\n{body}\n<!-- /{tag} -->", s, flags=re.S)
 open(p, "w").write(s)
 print("tables regenerated")
